@@ -24,6 +24,7 @@ FIXES = [
     ('8b7a4dd', 'C10', 'D16 flush before a process writes to the output file'),
     ('5780fb7', 'C10', 'D16b flush before a transforming process writes to the output file'),
     ('4cc3a30', 'C17', 'D17 line-nums range resolved once for all cases of a suite'),
+    ('775fa4d', 'C18', 'D18 _hds of SDV validators never set'),
 ]
 
 
